@@ -210,7 +210,7 @@ class CallMixin:
                 # raised by a contract: the attribute is an unconstrained value of its declared sort
                 return ty.fresh(f"{obj.cls}_{name}")
             raise Unsupported(f"exception attribute {name}")
-        if isinstance(obj, (SDict, PairList, tuple, list, str, bytes, int)):
+        if isinstance(obj, (SDict, PairList, tuple, list, str, bytes, int)) or type(obj).__name__ == "_EmptySet":
             return BuiltinMethod(obj, name, obj_expr)
         raise Unsupported(f"attribute {name} of {obj!r}")
 
@@ -406,7 +406,8 @@ class CallMixin:
 
     def call_function(self, fdef: FuncDef, args, kwargs, node, cls=None, self_expr=None):
         con = self.reg.get(fdef.qualname)
-        if con is not None and con.modular and not (self.cur_fn is fdef and len(self.fn_stack) == 0):
+        inline = getattr(getattr(self, "cur_contract", None), "inline", ()) or ()
+        if con is not None and con.modular and fdef.qualname not in inline and not (self.cur_fn is fdef and len(self.fn_stack) == 0):
             return self.apply_contract(con, fdef, args, kwargs, node, self_expr)
         if self.call_depth > MAX_DEPTH:
             raise Unsupported("inlining depth exceeded at " + fdef.qualname)
@@ -729,6 +730,21 @@ class CallMixin:
             return lift(v, t)
         if isinstance(v, (tuple, list)):
             return self.lift_like(v, t)
+        if isinstance(v, SDict) and isinstance(t, TRec) and getattr(t, "dictlike", False):
+            # a dict literal with constant keys where a stat-like record (known key set, every key optional) is expected;
+            # keys the record type does not model are dropped
+            vals = {}
+            for fname, fty in t.fields.items():
+                if fname in v.items:
+                    pres, x = v.items[fname]
+                    xe = self.coerce(x, fty.elem if isinstance(fty, TOpt) else fty)
+                    some = fty.some(xe) if isinstance(fty, TOpt) else xe
+                    vals[fname] = some if z3.is_true(z3.simplify(pres)) else SV(z3.If(pres, some.t, fty.none().t), fty)
+                else:
+                    if not isinstance(fty, TOpt):
+                        raise Unsupported(f"dict literal lacks key {fname}")
+                    vals[fname] = fty.none()
+            return t.mk(**vals)
         if isinstance(v, SDict) and isinstance(t, TMap):
             m = t.empty()
             for k, (p, x) in v.items.items():
